@@ -328,6 +328,8 @@ pub fn main(check: &dyn Check) -> ! {
         Tier::Quick => spec.cap_quick_s,
         Tier::Thorough => spec.cap_thorough_s,
     };
+    // development aid (e.g. evaluating a seeded change on a heavily loaded machine): a longer wall cap
+    let cap = std::env::var("VERIF_CAP_S").ok().and_then(|s| s.parse::<u64>().ok()).unwrap_or(cap);
     let n = args.jobs.min(spec.max_workers).max(1);
     let exe = std::env::current_exe().unwrap();
     let mut children = Vec::new();
